@@ -2,6 +2,7 @@
  * usage: h_one <cfgpath> <resultfile> [uid] [ncalls] [devlogpath|-] [message length -> env M] [fill char]
  * The executable contains snoopy's objects (production wrapper); librec.so is the real-exec seam. */
 #include <errno.h>
+#include <fcntl.h>
 #include <stdio.h>
 #include <stdlib.h>
 #include <string.h>
@@ -71,6 +72,21 @@ int main(int argc, char **argv) {
     if (argc > 6) { long ml = atol(argv[6]); char *m = malloc(ml + 1); memset(m, argc > 7 ? argv[7][0] : 'm', ml); m[ml] = 0; setenv("M", m, 1); free(m); }
     verif_rec_cb = cb;
     FILE *resf = fopen(argv[2], "w");   /* the result channel is opened before privileges are dropped */
+    /* sink states of the caller's own stdout / stderr: "gone:<fds>" = pipe whose reader has closed, "full:<fds>" = pipe that is
+       full and that nobody reads, "nearly:<fds>" = the same with one page of room, "sockgone:<fds>" = stream socket whose peer has closed */
+    { const char *st = getenv("VERIF_STD_STATE");
+      if (st && *st) {
+          const char *fds = strchr(st, ':'); fds = fds ? fds + 1 : "1";
+          for (const char *q = fds; *q; q++) {
+              int target = *q - '0', p[2];
+              if (!strncmp(st, "sockgone", 8)) { if (socketpair(AF_UNIX, SOCK_STREAM, 0, p)) return 3; close(p[0]); dup2(p[1], target); close(p[1]); continue; }
+              if (pipe(p)) return 3;
+              if (!strncmp(st, "gone", 4)) close(p[0]);
+              else { int fl = fcntl(p[1], F_GETFL); fcntl(p[1], F_SETFL, fl | O_NONBLOCK); char z[4096]; memset(z, 'z', sizeof z);
+                     while (write(p[1], z, sizeof z) > 0) {} while (write(p[1], z, 1) > 0) {} fcntl(p[1], F_SETFL, fl);
+                     if (!strncmp(st, "nearly", 6)) { if (read(p[0], z, sizeof z) < 0) return 3; } /* one page of room, still nobody reading */ }
+              dup2(p[1], target); close(p[1]);
+          } } }
     if (uid) { setgroups(0, NULL); if (setresgid(uid, uid, uid) || setresuid(uid, uid, uid)) { perror("setres"); return 3; } }
     char *av[] = { "prog", "arg one", "two", NULL }; char *ev[] = { "A=1", "LOGNAME=someone", NULL };
     int ok = 1, lastret = 0, lasterr = 0; static char fds0[8192], fds1[8192]; long heapd[8] = {0}; int fdleak[8] = {0};
